@@ -69,9 +69,12 @@ pub assume_specification<T> [Option::<T>::as_deref] (o: &Option<T>) -> (r: Optio
     ensures o is Some <==> r is Some,
 ;
 
-/// a String is determined by its characters
-pub broadcast proof fn axiom_string_ext(a: String, b: String)
-    ensures (#[trigger] a@ == #[trigger] b@) ==> a == b
+/// a String is determined by its characters: the view has a left inverse.  (Stated with one trigger
+/// per string; the two-string form `a@ == b@ ==> a == b` instantiates for every pair of strings in
+/// sight and accounted for two thirds of all quantifier instantiations in perform_update_check.)
+pub uninterp spec fn vx_str_of_view(s: Seq<char>) -> String;
+pub broadcast proof fn axiom_string_ext(a: String)
+    ensures vx_str_of_view(#[trigger] a@) == a
 { admit(); }
 //@broadcast axiom_string_ext
 
